@@ -109,8 +109,8 @@ func (q reqSpec) packet(sessionID []byte, rnd func(n int) []byte) []byte {
 			pl = putS(pl, "new-"+q.password)
 		}
 	case "keyboard-interactive":
-		pl = putS(nil, "")  // language tag
-		pl = putS(pl, "")   // submethods
+		pl = putS(nil, "") // language tag
+		pl = putS(pl, "")  // submethods
 	case "publickey":
 		k := pool[q.key]
 		pl = putBool(nil, !q.query)
